@@ -103,6 +103,16 @@ class ServerConn:
                         rep = b"VALUE k1 zero one\r\nx\r\nEND\r\n"
                     else:
                         rep = b"WHAT_IS_THIS 17\r\n"
+                elif rf == "surplus":
+                    # a VALUE block for the key asked for whose header has one column too many for the command sent
+                    # (a cas column on get/gat, a sixth column on gets/gats): not a reply to this request
+                    k0 = (cmd.get("keys") or [b"k1"])[0]
+                    if cmd.get("verb") in (b"get", b"gat"):
+                        rep = b"VALUE " + k0 + b" 0 1 77\r\nx\r\nEND\r\n"
+                    elif cmd.get("verb") in (b"gets", b"gats"):
+                        rep = b"VALUE " + k0 + b" 0 1 77 88\r\nx\r\nEND\r\n"
+                    else:
+                        rep = b"WHAT_IS_THIS 17\r\n"
                 elif rf == "two_line_error":
                     # what memcached answers to a storage command whose data block is malformed: two error lines
                     rep = b"CLIENT_ERROR bad data chunk\r\nERROR\r\n"
